@@ -12,7 +12,7 @@ returned are exactly those of running the sequential object over the inputs in t
 theorem order_is_sequential (o : Obj σ ι ρ) (s0 : σ) (es : List (Ev ι ρ)) (s : Sys σ ι ρ)
     (h : (Sys.init s0).run o es = some s) :
     seqRun o s0 (s.order.map (·.2.1)) = (s.st, s.order.map (·.2.2)) :=
-  sorry
+  SeqInv_run o s0 es (Sys.init s0) s (SeqInv_init o s0) h
 
 /-- that order respects real time: if operation a's response precedes operation b's invocation in
 the execution, a's atomic step precedes b's -/
@@ -20,12 +20,16 @@ theorem order_respects_real_time (o : Obj σ ι ρ) (s0 : σ) (es : List (Ev ι 
     (h : (Sys.init s0).run o es = some s) (a b : Nat) (pa : Nat)
     (ha : (a, pa) ∈ s.retPos) (hb : b ∈ s.order.map (·.1)) (hlt : pa < b) :
     ∃ ia ib, (s.order.map (·.1)).idxOf? a = some ia ∧ (s.order.map (·.1)).idxOf? b = some ib ∧ ia < ib :=
-  sorry
+  by
+    have hinv := RTInv_run o es (Sys.init s0) s (RTInv_init s0) h
+    exact Before.idxOf? hinv.nodup (hinv.ret_before a pa ha b hb hlt)
 
 /-- every completed operation is in the order exactly once -/
 theorem completed_in_order (o : Obj σ ι ρ) (s0 : σ) (es : List (Ev ι ρ)) (s : Sys σ ι ρ)
     (h : (Sys.init s0).run o es = some s) :
     (s.order.map (·.1)).Nodup ∧ ∀ a pa, (a, pa) ∈ s.retPos → a ∈ s.order.map (·.1) :=
-  sorry
+  by
+    have hinv := RTInv_run o es (Sys.init s0) s (RTInv_init s0) h
+    exact ⟨hinv.nodup, hinv.ret_mem⟩
 
 end LinThm
